@@ -17,6 +17,20 @@ NOT_APPLICABLE = {
 
 # property id -> dict(level, text, note, technique, design_ref, module)
 CLAIMED = {
+    "C19": dict(
+        level="exploration",
+        technique="deterministic simulation: seek/tell/read histories through HTTPFile/S3File against an in-process RFC 7233 range server behind a fault-injecting requests transport (drops, connect/read timeouts on a virtual clock), byte-exact model",
+        design_ref="DESIGN.md section 4 (C19), 3.7",
+        text=("Seeded histories of seek(SET/CUR/END), tell, read(n) (n biased to chunk boundaries, multi-chunk spans, the end of the "
+              "resource, 0 and -1), length and etag run through the real HTTPFile (and S3File over a stubbed object handle) with "
+              "per-run chunk size 1..64, cache capacity 1..5 and resource sizes around multiples of the chunk size, served by a "
+              "simulated range server in two RFC-conformant personalities while the transport injects connection errors and "
+              "timeouts that the client's retry loop must absorb; returned bytes must equal the model's slice, the cache must not "
+              "exceed its capacity. Dataset level: generated .rtdc files served the same way and read through RTDC_HTTP must equal "
+              "the local RTDC_HDF5 (features, metadata, logs, tables)."),
+        note=("Sampling. Trusted: the simulated server's conformance to RFC 7233, the boto3 object-handle stub for S3File; botocore's "
+              "HTTP stack is not simulated. Server misbehaviour (5xx, truncated bodies) is outside the statement."),
+    ),
     "C01": dict(
         level="exploration",
         technique="deterministic simulation: seeded writer-session histories (close/reopen as restart) against an in-memory reference model, chunk-size knob, ddmin-minimised replay",
@@ -61,7 +75,7 @@ CLAIMED = {
 
 # properties whose checks are still under construction (kept in not_applicable with that
 # reason until the check exists, so that MANIFEST.json is valid and honest at every commit)
-PENDING = ["C02", "C03", "C04", "C06", "C07", "C08", "C09", "C10", "C13", "C14", "C17", "C19"]
+PENDING = ["C02", "C03", "C04", "C06", "C07", "C08", "C09", "C10", "C13", "C14", "C17"]
 for _p in PENDING:
     if _p not in CLAIMED:
         NOT_APPLICABLE[_p] = "not claimed yet: check under construction (designed in DESIGN.md section 4; will be claimed once its machinery is committed)"
